@@ -243,6 +243,15 @@ class ScheduleObserver:
         return False
 
 
+class LoadStuck(Exception):
+    """the simulated load generators do not come to an end: ``kind`` is 'deadlock' (a worker is not done but nothing is
+    scheduled), 'livelock' (steps are taken but virtual time stands still) or 'budget' (busy, time advancing: inconclusive)"""
+
+    def __init__(self, kind, msg):
+        super().__init__(msg)
+        self.kind = kind
+
+
 class WorkerSim:
     def __init__(self, idx, proc, loop, sampler, cancel, complete, adapter):
         self.idx = idx
@@ -326,6 +335,7 @@ class LoadSim:
             orig_create(node)
 
         a.RallyAiohttpHttpNode._create_aiohttp_session = create
+        marks = []
         try:
             for w in self.workers:
                 w.task = w.loop.create_task(w.adapter.run())
@@ -338,7 +348,7 @@ class LoadSim:
                 if self.timers:
                     cands.append((max(self.timers[0][0], self.clock.now), None))
                 if not any(c[1] is not None for c in cands) and not self.timers:
-                    raise RuntimeError("load simulation is stuck: a worker is not done but nothing is scheduled")
+                    raise LoadStuck("deadlock", f"a worker is not done but nothing is scheduled at t={self.clock.now:.6f}")
                 tmin = min(c[0] for c in cands)
                 near = [c for c in cands if c[0] <= tmin + tie_window]
                 t, w = near[sched.choose(len(near))] if len(near) > 1 else near[0]
@@ -349,8 +359,12 @@ class LoadSim:
                 else:
                     w.loop.run_one()
                 self.steps += 1
+                if self.steps % 50000 == 0:
+                    marks.append(self.clock.now)
                 if self.steps > max_steps:
-                    raise RuntimeError("load simulation exceeded its step budget")
+                    if len(marks) >= 3 and self.clock.now - marks[-3] < 1e-6:
+                        raise LoadStuck("livelock", f"{self.steps} steps taken, virtual time stands still at t={self.clock.now:.6f} since step {50000 * (len(marks) - 2)}")
+                    raise LoadStuck("budget", f"step budget of {max_steps} exhausted at t={self.clock.now:.6f} (virtual time still advancing)")
         finally:
             a.RallyAiohttpHttpNode._create_aiohttp_session = orig_create
         for w in self.workers:
